@@ -2,3 +2,4 @@ pub mod langs;
 pub mod term;
 pub mod obs;
 pub mod util;
+pub mod costs;
